@@ -236,8 +236,15 @@ class MultiStepReplayBuffer(ReplayBuffer):
         n_step_reward: torch.Tensor = first_transition[self.reward_key]
         n_step_reward = n_step_reward.clone()
 
+        # If the first transition already ends an episode, nothing that follows
+        # belongs to it, so the window is not extended
+        first_done: torch.Tensor = first_transition[self.done_key]
+        following = (
+            [] if first_done.bool().any() else list(self.n_step_buffer)[1:]
+        )
+
         # Get the last next_state and done flag
-        for i, transition in enumerate(list(self.n_step_buffer)[1:]):
+        for i, transition in enumerate(following):
             # Add discounted reward
             reward: torch.Tensor = transition[self.reward_key]
             n_step_reward += reward * (self.gamma ** (i + 1))
